@@ -300,14 +300,22 @@ func NewSess(nd *Node, p *Profile, filterRows map[int][]int, salt int64) (*Sess,
 	s := &Sess{Nd: nd, P: p, ctx: context.Background(), rng: rand.New(rand.NewSource(salt))}
 	s.Index = fmt.Sprintf("b%d", atomic.AddInt64(&indexSeq, 1))
 	api := nd.C[0].API
+	ok := false
+	defer func() {
+		if !ok {
+			s.Close() // do not leave a half-created index behind
+		}
+	}()
 	if _, err := api.CreateIndex(s.ctx, s.Index, pilosa.IndexOptions{TrackExistence: p.Exist}); !tolerable(err) {
 		return nil, fmt.Errorf("CreateIndex: %v", err)
 	}
 	if _, err := api.CreateField(s.ctx, s.Index, "f", pilosa.OptFieldTypeInt(p.V(p.Min), p.V(p.Max))); !tolerable(err) {
 		return nil, fmt.Errorf("CreateField f: %v", err)
 	}
-	if _, err := api.CreateField(s.ctx, s.Index, "g", pilosa.OptFieldTypeSet(pilosa.CacheTypeRanked, 100)); !tolerable(err) {
-		return nil, fmt.Errorf("CreateField g: %v", err)
+	if len(filterRows) > 0 {
+		if _, err := api.CreateField(s.ctx, s.Index, "g", pilosa.OptFieldTypeSet(pilosa.CacheTypeRanked, 100)); !tolerable(err) {
+			return nil, fmt.Errorf("CreateField g: %v", err)
+		}
 	}
 	if nd.N == 1 {
 		f, err := api.Field(s.ctx, s.Index, "f")
@@ -345,6 +353,7 @@ func NewSess(nd *Node, p *Profile, filterRows map[int][]int, salt int64) (*Sess,
 			}
 		}
 	}
+	ok = true
 	return s, nil
 }
 
